@@ -48,7 +48,20 @@ LongScenario(crlf) ==
   LET t == IF crlf THEN LongProg \o "\r\nprint 2;\r\n" ELSE LongProg \o "\nprint 2;\n" IN
   [prop |-> "C19", key |-> "long",
    steps |-> <<[op |-> "execfrag", ctx |-> 0, reader |-> "string", text |-> t]>>
-             \o [k \in 1..92 |-> [op |-> "cli", mode |-> (IF k <= 46 THEN "file" ELSE "stdin"), text |-> t, padline |-> 984 + ((k - 1) % 46) + 1, args |-> <<>>, same_out_as |-> 1]]]
+             \o [k \in 1..138 |-> [op |-> "cli", mode |-> (IF k <= 46 THEN "file" ELSE IF k <= 92 THEN "stdin" ELSE "inter"), text |-> t, padline |-> 984 + ((k - 1) % 46) + 1, args |-> <<>>, same_out_as |-> 1]]]
+\* the position of a compile error: valid lines of every kind (statements, comments of one and of several lines, a string
+\* literal that spans lines, blank lines, a directive-like comment) followed by a line whose only error is at a known column
+PosLines == << <<"X = 1;">>, <<"">>, <<"// note">>, <<"/* one line */ Y = 2;">>, <<"/* header", " * of the script", " */">>, <<"S = \"first", "second\";">>,
+               <<"Z = 3; /* a", "b */ W = 4;">>, <<"print \"a\"; // tail">>, <<"T = tab(2,", "   1);">> >>
+\* [text of the faulty line, column of the token the message names]
+PosBad == << [t |-> "print QQ;", c |-> 7], [t |-> "  X2 = QQ + 1;", c |-> 8], [t |-> "print 1 + ;", c |-> 11], [t |-> "/* c */ print QQ;", c |-> 15] >>
+PosFlat(a, b) == PosLines[a] \o PosLines[b]
+JoinNL(ls) == LET J[i \in 0..Len(ls)] == IF i = 0 THEN "" ELSE J[i - 1] \o ls[i] \o "\n" IN J[Len(ls)]
+PosScenario(a, b, i) ==
+  LET ls == PosFlat(a, b)  t == JoinNL(ls) \o PosBad[i].t \o "\n"  w == [l |-> Len(ls) + 1, c |-> PosBad[i].c] IN
+  [prop |-> "C19", key |-> "pos",
+   steps |-> << [op |-> "cli", mode |-> "file", text |-> t, args |-> <<>>, want_pos |-> w],
+                [op |-> "cli", mode |-> "stdin", text |-> t, args |-> <<>>, want_pos |-> w] >>]
 VARIABLE p
 Init == p \in {[k |-> "prog", m |-> m, a |-> a, mode |-> mode] : m \in Progs, a \in DOMAIN ArgVecs, mode \in {"file", "stdin", "out"}}
               \cup {[k |-> "prog", m |-> m, a |-> 1, mode |-> mode] : m \in DeepProgs, mode \in {"file", "stdin", "out"}}
@@ -58,6 +71,7 @@ Init == p \in {[k |-> "prog", m |-> m, a |-> a, mode |-> mode] : m \in Progs, a 
               \cup {[k |-> "expr", e |-> e] : e \in ExprTrees}
               \cup {[k |-> "badexpr", t |-> t] : t \in {"1 +", "(2", "foo(", "* 3"}}
               \cup {[k |-> "long", c |-> c] : c \in BOOLEAN}
+              \cup {[k |-> "pos", a |-> a, b |-> b, i |-> i] : a \in DOMAIN PosLines, b \in DOMAIN PosLines, i \in DOMAIN PosBad}
               \cup {[k |-> "save", m |-> m] : m \in {x \in Progs \cup DeepProgs : ~Failed(RunProgram(x, SetVar(State0, "$ARG", VTab(TStr, <<>>))))}}
 Next == UNCHANGED p
 Scenario(q) ==
@@ -66,6 +80,7 @@ Scenario(q) ==
     [] q.k = "inter" -> [prop |-> "C19", key |-> "inter", steps |-> <<[op |-> "cli", mode |-> "inter", ast |-> q.m, text |-> Render(q.m) \o "\n", args |-> ArgVecs[q.a]]>>]
     [] q.k = "expr" -> [prop |-> "C19", key |-> "expr", steps |-> <<[op |-> "cli", mode |-> "expr", ast |-> q.e, text |-> RMin(q.e), args |-> <<>>]>>]
     [] q.k = "long" -> LongScenario(q.c)
+    [] q.k = "pos" -> PosScenario(q.a, q.b, q.i)
     [] q.k = "save" -> [prop |-> "C19", key |-> "save", steps |-> <<[op |-> "cli", mode |-> "save", ast |-> q.m, text |-> Render(q.m), args |-> <<>>]>>]
     [] q.k = "badexpr" -> [prop |-> "C19", key |-> "badexpr", steps |-> <<[op |-> "cli", mode |-> "expr", reject |-> TRUE, text |-> q.t, args |-> <<>>]>>]
 Emit == PrintT("@@S " \o ToJson(Scenario(p)))
